@@ -196,6 +196,11 @@ func main() {
 		}
 		return checkBytes(c.Input)
 	}
+	r.ConcurrentReplay = true
+	r.Noise = func(i int) {
+		x := []byte(fmt.Sprintf("c%d\n-- f%d --\r\nbody %d\n-- g --\n", i, i%5, i))
+		txtar.Parse(txtar.Format(txtar.Parse(x)))
+	}
 	r.MaybeReplay()
 
 	maxLen := 10
